@@ -29,11 +29,14 @@ type verifChan struct {
 
 func verifNewChan(o *Options, name string) *verifChan {
 	n := verifShellNSQD(o)
-	verifrt.Stub("(*github.com/nsqio/nsq/nsqd.NSQD).Notify", verifNotifyNop)
+	verifrt.StubNative("(*github.com/nsqio/nsq/nsqd.NSQD).Notify", verifNotifyNop)
 	c := NewChannel("t", name, n, nil)
 	st := &verifChan{n: n, c: c}
 	if !c.ephemeral {
 		st.be = &verifBackend{}
+		if made, ok := c.backend.(*verifBackend); ok {
+			st.be.minSize, st.be.maxSize = made.minSize, made.maxSize
+		}
 		if !verifrt.Symbolic() {
 			c.backend.Close()
 		}
